@@ -50,6 +50,7 @@ def _k_looks_regular(case, v):
 def _k_2d_low_rate(case, v):
     """2D conversion at 1/4 or 1/2 bit per voxel is refused (cleanly): libzfp cannot produce it."""
     s = case.get("setting") or {}
-    bs = s.get("blockshape") or [0]
-    return bs[0] == 1 and s.get("rate", 1) < 1 and v.kind in ("valid-2d-setting-refused", "valid-setting-refused") \
-        and "at least 1 bit per voxel" in v.detail
+    bs = s.get("blockshape") or case.get("bs") or [0]
+    two_d = bs[0] == 1 or case.get("two_d") is True
+    return two_d and v.kind in ("valid-2d-setting-refused", "valid-setting-refused") \
+        and "2D compression requires at least 1 bit per voxel" in v.detail
